@@ -518,13 +518,58 @@ pub fn n_threads() -> usize {
 /// enumeration of short scripts
 pub fn scenario_of(spec: &SoloSpec, seed: u64, tier: Tier, i: u64, runs: u64) -> Scenario {
     let deep = deep_count(spec, tier);
+    let soak = soak_count(spec, tier);
     if i < runs {
         draw_for(spec, seed, tier, i)
     } else if i < runs + deep {
         deep_scenario(spec, seed, tier, i - runs)
+    } else if i < runs + deep + soak {
+        soak_scenario(spec, seed, i - runs - deep)
     } else {
-        enum_scenario(spec, tier, i - runs - deep)
+        enum_scenario(spec, tier, i - runs - deep - soak)
     }
+}
+
+/// runs appended after the seeded ones (extremal-state runs, long-lived generators, enumerations)
+pub fn extra_count(spec: &SoloSpec, tier: Tier) -> u64 {
+    deep_count(spec, tier) + soak_count(spec, tier) + enum_count(spec, tier)
+}
+
+/// Long-lived generators: one generator serving 120..400 generation calls (the Atheris usage
+/// pattern), every call judged. State that accumulates over a generator's lifetime (budgets,
+/// counters, caches, buffers that are not part of reset()) only shows after many calls.
+pub fn soak_count(spec: &SoloSpec, tier: Tier) -> u64 {
+    match (spec.prop, tier) {
+        ("C14", _) | ("C15", _) | ("C16", _) => 0,
+        (_, Tier::Quick) => 16,
+        (_, Tier::Thorough) => 300,
+    }
+}
+
+pub fn soak_scenario(spec: &SoloSpec, seed: u64, k: u64) -> Scenario {
+    use rand::Rng;
+    let mut rng = mix::rng_from(desc::derive_seed(seed, "soak", k));
+    let mut p = spec.profile.clone();
+    p.long_bias = 0.0;
+    p.huge_bias = 0.0;
+    p.max_cap = 300;
+    let mut config = mix::draw_config(&mut rng, &p);
+    // half of the long-lived generators run with plain defaults
+    if k % 2 == 0 {
+        config = Config::default_for(config.protocol);
+    }
+    let calls = rng.random_range(120..400);
+    let mut faults = vec![];
+    let mut history = Vec::with_capacity(calls + 8);
+    for _ in 0..calls {
+        history.push(HOp::Gen(mix::draw_entropy(&mut rng, &p, &mut faults)));
+        if rng.random_range(0..97) == 0 {
+            history.push(HOp::Reset);
+        }
+    }
+    faults.truncate(4);
+    faults.push(desc::Fault { kind: "hist", at: calls, detail: format!("long-lived generator: {} generation calls", calls) });
+    Scenario { config, hash_key: rng.random(), history, faults }
 }
 
 /// Extremal-state runs ("deep runs"): long generations driven by a *periodic* fuzzer script (a
@@ -535,12 +580,28 @@ pub fn scenario_of(spec: &SoloSpec, seed: u64, tier: Tier, i: u64, runs: u64) ->
 /// seeded search: candidates are probed cheaply (800 opcodes) and ranked per dimension by what the
 /// reference machine R3 measures; the best ones are then run at scale.
 pub fn deep_count(spec: &SoloSpec, tier: Tier) -> u64 {
+    deep_base_count(spec, tier) + tail_variant_count(spec, tier)
+}
+
+/// "extreme state x every next opcode": for the best patterns of each dimension the periodic phase
+/// is followed by one more choice byte b in 0..64 (a byte picks `b % n` among the n < 64 candidates),
+/// so every opcode that can follow the extreme state is executed on it once
+pub fn tail_variant_count(spec: &SoloSpec, tier: Tier) -> u64 {
+    match (spec.prop, tier) {
+        ("C09", Tier::Quick) => 4 * 64,
+        ("C09", Tier::Thorough) => 20 * 64,
+        ("C01", Tier::Thorough) | ("C03", Tier::Thorough) | ("C17", Tier::Thorough) | ("C04", Tier::Thorough) => 10 * 64,
+        _ => 0,
+    }
+}
+
+fn deep_base_count(spec: &SoloSpec, tier: Tier) -> u64 {
     match (spec.prop, tier) {
         ("C09", Tier::Quick) => 20,
         ("C09", Tier::Thorough) => 400,
-        ("C08", Tier::Quick) => 8,
+        ("C08", Tier::Quick) => 12,
         ("C08", Tier::Thorough) => 60,
-        ("C14", Tier::Quick) => 6,
+        ("C14", Tier::Quick) => 10,
         ("C14", Tier::Thorough) => 40,
         ("C15", _) | ("C16", _) => 0,
         (_, Tier::Quick) => 12,
@@ -708,8 +769,67 @@ pub fn export_deep_patterns(seed: u64) {
     }
 }
 
+/// bytes of the periodic script consumed by exactly `n` body opcodes (measured once per pattern)
+fn consumed_by(p: u8, pat: &[u8], n: usize) -> usize {
+    use std::sync::{Mutex, OnceLock};
+    static CACHE: OnceLock<Mutex<std::collections::HashMap<(u8, Vec<u8>, usize), usize>>> = OnceLock::new();
+    let cache = CACHE.get_or_init(|| Mutex::new(std::collections::HashMap::new()));
+    if let Some(v) = cache.lock().unwrap().get(&(p, pat.to_vec(), n)) {
+        return *v;
+    }
+    let mut c = Config::default_for(p);
+    c.min_opcodes = n;
+    c.max_opcodes = n;
+    let total = n * 12 + 64;
+    let script: Vec<u8> = (0..total).map(|j| pat[j % pat.len()]).collect();
+    let sc = Scenario::solo(c, Entropy::Bytes(script));
+    let recs = exec::run_scenario(&sc, Trace::Light, false);
+    let mut consumed = total;
+    if let Some(r) = recs.first() {
+        for e in &r.events {
+            if let pickle_fuzzer::verif::Event::Phase { phase: pickle_fuzzer::verif::Phase::BodyDone, entropy_left: Some(l), .. } = e {
+                consumed = total - *l;
+            }
+        }
+    }
+    cache.lock().unwrap().insert((p, pat.to_vec(), n), consumed);
+    consumed
+}
+
+fn tail_variant_scenario(spec: &SoloSpec, seed: u64, tier: Tier, k: u64) -> Scenario {
+    let pats = deep_patterns(seed);
+    let order = deep_schedule(seed);
+    // patterns in schedule order, skipping the exhausted source (it has no periodic phase)
+    let periodic: Vec<(usize, usize)> = order.iter().copied().filter(|(i, _)| !pats[*i].pat.is_empty()).collect();
+    let (pi, obj) = periodic[((k / 64) as usize) % periodic.len()];
+    let b = (k % 64) as u8;
+    let pat = &pats[pi];
+    let n = match (tier, obj) {
+        (Tier::Quick, 0) => 24_000usize,
+        (Tier::Thorough, 0) => 30_000,
+        _ => 9_000,
+    };
+    let used = consumed_by(pat.protocol, &pat.pat, n);
+    let mut script: Vec<u8> = (0..used).map(|j| pat.pat[j % pat.pat.len()]).collect();
+    script.push(b);
+    let mut c = Config::default_for(pat.protocol);
+    c.min_opcodes = n + 1;
+    c.max_opcodes = n + 1;
+    let mut sc = Scenario::solo(c, Entropy::Bytes(script));
+    let _ = spec;
+    sc.faults.push(desc::Fault {
+        kind: "stuck",
+        at: used,
+        detail: format!("periodic script {:02x?} for {} opcodes ({}), then one choice byte 0x{:02x}, then exhausted", pat.pat, n, OBJECTIVES[obj], b),
+    });
+    sc
+}
+
 pub fn deep_scenario(spec: &SoloSpec, seed: u64, tier: Tier, k: u64) -> Scenario {
     use rand::Rng;
+    if k >= deep_base_count(spec, tier) {
+        return tail_variant_scenario(spec, seed, tier, k - deep_base_count(spec, tier));
+    }
     let pats = deep_patterns(seed);
     let order = deep_schedule(seed);
     let (pi, obj) = order[(k as usize) % order.len()];
@@ -758,8 +878,10 @@ pub fn deep_scenario(spec: &SoloSpec, seed: u64, tier: Tier, k: u64) -> Scenario
 
 pub fn run_one(spec: &SoloSpec, seed: u64, tier: Tier, i: u64, runs: u64, stats: &mut Stats) -> (Scenario, Vec<Violation>) {
     let sc = scenario_of(spec, seed, tier, i, runs);
-    if i >= runs + deep_count(spec, tier) {
+    if i >= runs + deep_count(spec, tier) + soak_count(spec, tier) {
         stats.bump("fault.cut.enumerated_short_script(runs)");
+    } else if i >= runs + deep_count(spec, tier) {
+        stats.bump("fault.hist.long_lived_generator(runs)");
     } else if i >= runs {
         stats.bump("fault.stuck.extremal_state_long_run(runs)");
     }
@@ -968,14 +1090,14 @@ where
 }
 
 pub fn sweep_solo(spec: &SoloSpec, tier: Tier, seed: u64, runs: u64, wall_cap_s: f64, known: &[KnownFinding]) -> SweepOutcome {
-    let total = runs + deep_count(spec, tier) + enum_count(spec, tier);
+    let total = runs + extra_count(spec, tier);
     sweep_indices(total, wall_cap_s, known, (0, 1), n_threads() as u64, None, |i, stats| run_one(spec, seed, tier, i, runs, stats))
 }
 
 /// the same sweep restricted to run indices <= upto (replay of a violation that depends on what
 /// the process executed before it)
 pub fn sweep_solo_prefix(spec: &SoloSpec, tier: Tier, seed: u64, runs: u64, upto: u64, known: &[KnownFinding]) -> SweepOutcome {
-    let total = (runs + deep_count(spec, tier) + enum_count(spec, tier)).min(upto + 1);
+    let total = (runs + extra_count(spec, tier)).min(upto + 1);
     sweep_indices(total, 3600.0, known, (0, 1), n_threads() as u64, None, |i, stats| run_one(spec, seed, tier, i, runs, stats))
 }
 
@@ -1330,6 +1452,11 @@ fn tree_run(protocol: u8, script: &[u8], depth: usize, trace: Trace) -> (Scenari
         }
     }
     (sc, recs, ops, consumed)
+}
+
+/// public probe used by the program synthesiser's steering
+pub fn tree_probe(protocol: u8, script: &[u8], depth: usize) -> (Scenario, Vec<CallRecord>, Vec<u8>, usize) {
+    tree_run(protocol, script, depth, Trace::Light)
 }
 
 /// children of a node: every distinct opcode the next choice byte can select
